@@ -219,6 +219,9 @@ def run(ctx):
     ctx.cov["size_sweep"] = T.check_sweep(ctx, sweep, ("sort", "limit"))
     ctx.cov["size_sweep_note"] = ("tables of the sweep are compared with the spec in Python (permutation, value order, prefix); they are "
                                   "not evaluated by the Gallina model inside Coq (quick: up to 5003 rows, thorough: up to 65537)")
+    es = T.htable(["-mode", "e2esweep", "-n", 2 if ctx.tier == "thorough" else 1, "-seed", seed], timeout=1800)
+    ctx.cov["statement_size_sweep"] = T.check_e2e_sweep(ctx, es, ("orderlimit",))
+    ctx.cov["statement_size_sweep_note"] = "statements over graphs of 13..4099 (thorough: ..16385) triples, result compared with the spec in Python, not evaluated in Coq"
     mark("sweep")
     # ---- the two ORACLE order laws (assumed by C12_sorted_time_partial / C12_sorted_time_float_partial), sampled on Go's renderings
     samples = T.htable(["-mode", "oracle", "-n", 2000 * mult, "-seed", seed])
